@@ -16,6 +16,10 @@ CHECKS = {
   "reference-model monitor: independent PLRM evaluator + state-graph comparison (values and sharing), bounded-exhaustive operand tuples plus model-guided random programs",
   "Every operand tuple of length 0..max(2,arity) from a 47-object pool (integers at 0, +-1, +-2^31, 2^53, 2^53+1, min/max int; reals; strings, arrays and dictionaries including shared ones and sub-intervals) is applied to each of 44 data operators in a fresh interpreter; the final operand stack, dictionary stack, userdict, FontDirectory, resource categories and (for the empty-tuple cases) systemdict are compared as graphs with sharing against an independent evaluator written from the PLRM, or the error name against the evaluator's set of acceptable names. Seeded random programs (5-80 tokens) and pinned regression programs add multi-step aliasing situations.",
   "Trusted: harness/ref/pseval.go (independent of the library; returns sets of acceptable outcomes where the PLRM leaves a choice) and the pinned StandardEncoding table. Operand/operator combinations the minimal interpreter documents as unimplemented are counted and not asserted. State after an error is not compared."),
+ "C03": ("exploration", "DESIGN.md 11/C03",
+  "reference-model monitor with unique-value execution traces on the operand stack; residual-nesting invariant through the step hook",
+  "Generated programs nest exec/if/ifelse/for/repeat/forall/loop with exit and stop at arbitrary points, definitions and redefinitions, dictionary shadowing, and bind before/after operator redefinition; every body pushes literals unique in the program, so the final operand stack is an execution trace that is compared (as a state graph) with the independent evaluator's. A procedure literal is placed at every position of bodies of length 1-4 in every execution context, every operand tuple from a 14-object pool is applied to the seven control operators, and after each program one further operation is executed on the same interpreter while the step hook checks that no execution nesting, open procedure body or error level is left behind.",
+  "Trusted: harness/ref/pseval.go. Programs beyond generous nesting/stack bounds belong to C11 and are not asserted here. forall over dictionaries only with single entries (enumeration order is unspecified)."),
 }
 
 NOT_CLAIMED = {}
